@@ -664,7 +664,7 @@ class _Whittaker(_Algorithm2D):
         """
         y, weight_array, whittaker_system = self._setup_whittaker(data, lam, diff_order, weights)
         alpha_array = _check_optional_array(
-            self._shape, alpha, check_finite=self._check_finite, name='alpha',
+            self._shape, alpha, dtype=float, check_finite=self._check_finite, name='alpha',
             ensure_1d=False, axis=slice(None)
         )
         if self._sort_order is not None and alpha is not None:
